@@ -185,8 +185,7 @@ func ruleDeleteGuard(c *eng.Ctx) {
 			return false
 		}
 		isRegion := func(v ssa.Value) bool {
-			p, ok := v.(*ssa.Parameter)
-			return ok && strings.Contains(strings.ToLower(p.Name()), "region")
+			return strings.Contains(strings.ToLower(regionName(v)), "region")
 		}
 		return (op == token.LSS && isRegion(y)) || (op == token.GTR && isRegion(x)) || (op == token.LEQ && isRegion(y)) || (op == token.GEQ && isRegion(x))
 	}
@@ -200,7 +199,28 @@ func ruleDeleteGuard(c *eng.Ctx) {
 		if f.Pos && charLevel != nil && f.Cond == charLevel {
 			return true
 		}
-		return callFact("layout.textsMatch")(f)
+		if callFact("layout.textsMatch")(f) {
+			return true
+		}
+		// the text test as a strategy chosen per page: a function value that is textsMatch, or (only where the page
+		// was found to be character-level) a function that accepts every text
+		call, ok := f.Cond.(*ssa.Call)
+		if !ok || !f.Pos || eng.StaticCallee(call) != nil || call.Call.IsInvoke() {
+			return false
+		}
+		cands, complete := eng.FuncValues(call.Call.Value)
+		if !complete || len(cands) == 0 {
+			return false
+		}
+		for _, g := range cands {
+			if eng.FuncName(g) == "layout.textsMatch" {
+				continue
+			}
+			if !alwaysTrue(g) || !storedOnlyUnderCharLevel(g) {
+				return false
+			}
+		}
+		return true
 	}
 	n := 0
 	for _, r := range eng.Returns(fn) {
@@ -244,7 +264,7 @@ func ruleDeleteGuard(c *eng.Ctx) {
 			}
 			_, x, y, _ := f.Cmp()
 			for _, v := range []ssa.Value{x, y} {
-				if p, ok := v.(*ssa.Parameter); ok && strings.Contains(strings.ToLower(p.Name()), side) {
+				if strings.Contains(strings.ToLower(regionName(v)), side) {
 					return true
 				}
 			}
@@ -611,6 +631,82 @@ func distinctKeyed(c *eng.Ctx, host *ssa.Function, coll ssa.Value, field string)
 		if !seen {
 			okAll = false
 		}
+	}
+	return n > 0 && okAll
+}
+
+// regionName: the name under which a band height reaches the test: a parameter, or a field of a per-page struct.
+func regionName(v ssa.Value) string {
+	if p, ok := v.(*ssa.Parameter); ok {
+		return p.Name()
+	}
+	if fr, ok := eng.LoadOfField(v); ok {
+		return fr.Field
+	}
+	if f, ok := v.(*ssa.Field); ok {
+		if fr, ok := eng.AsField(f); ok {
+			return fr.Field
+		}
+	}
+	return ""
+}
+
+// alwaysTrue: every return of g is the constant true.
+func alwaysTrue(g *ssa.Function) bool {
+	rets := eng.Returns(g)
+	if len(rets) == 0 {
+		return false
+	}
+	for _, r := range rets {
+		if len(r.Results) != 1 {
+			return false
+		}
+		k, ok := r.Results[0].(*ssa.Const)
+		if !ok || k.Value == nil || k.Value.ExactString() != "true" {
+			return false
+		}
+	}
+	return true
+}
+
+// storedOnlyUnderCharLevel: wherever g is stored as a function value, a test of a boolean named like charLevel was
+// crossed on every path.
+func storedOnlyUnderCharLevel(g *ssa.Function) bool {
+	if g.Pkg == nil {
+		return false
+	}
+	n, okAll := 0, true
+	if boundedProg == nil {
+		return false
+	}
+	for _, f := range boundedProg.ModuleFuncs() {
+		if f.Pkg != g.Pkg {
+			continue
+		}
+		eng.Instrs(f, false, func(in ssa.Instruction) {
+			st, ok := in.(*ssa.Store)
+			if !ok || st.Val != ssa.Value(g) {
+				return
+			}
+			n++
+			if !eng.GuardedBy(st.Parent(), st.Block(), func(fc eng.Fact) bool {
+				if !fc.Pos {
+					return false
+				}
+				name := ""
+				switch x := fc.Cond.(type) {
+				case *ssa.Parameter:
+					name = x.Name()
+				case *ssa.Call:
+					name = eng.CalleeName(x)
+				case *ssa.Phi:
+					name = x.Comment
+				}
+				return strings.Contains(strings.ToLower(name), "char")
+			}) {
+				okAll = false
+			}
+		})
 	}
 	return n > 0 && okAll
 }
